@@ -60,6 +60,16 @@ def replay(m, prop: str, path: str) -> int:
     return 0
 
 
+def _violations_before_failure(prop: str, tier: str, why: str) -> int:
+    """The rig failed part-way.  Definite violations (not listed as known findings) that were established BEFORE the
+    failure are still reported (exit 1); without any, the run is a machinery failure (exit 2)."""
+    v = C.LAST_VERDICTS
+    if v is None or v.prop != prop or not v.has_new():
+        return C.EXIT_MACHINERY
+    v.notes.append(f"the check did not run to its end ({why[:300]}); the violations below were established before that")
+    return v.finish("exploration", {"evaluations": len(v.violations), "incomplete": True, "reason": why[:300]}, ["incomplete run: see notes"])
+
+
 def main() -> int:
     import faulthandler
     import signal
@@ -80,11 +90,11 @@ def main() -> int:
         return getattr(m, fn)(a.prop, a.tier)
     except C.MachineryError as ex:
         print(f"MACHINERY-FAILURE property={a.prop}: {ex}", file=sys.stderr)
-        return C.EXIT_MACHINERY
+        return _violations_before_failure(a.prop, a.tier, str(ex))
     except Exception:
         traceback.print_exc()
         print(f"MACHINERY-FAILURE property={a.prop}: unexpected exception in the rig", file=sys.stderr)
-        return C.EXIT_MACHINERY
+        return _violations_before_failure(a.prop, a.tier, "unexpected exception in the rig")
 
 
 if __name__ == "__main__":
